@@ -24,12 +24,13 @@ def r_lit(x: Fraction) -> str:
 class P(Prop):
     ID = "C09"
     THEOREMS = ["C09_limit_values", "C09_positive", "C09_never_increases", "C09_junction", "C09_tier_order",
-                "C09_species_mass", "C09_tier_mass"]
+                "C09_species_mass", "C09_tier_mass", "C09_tier_limit_replaces_a_given_nox_curve", "C09_tier_method_never_refuses",
+                "C09_other_species_use_the_last_given_curve", "C09_curve_method_needs_a_nox_curve", "C09_curve_method_uses_the_nox_curve"]
     ALLOWED_AXIOMS = ["ClassicalDedekindReals.", "Classical_Prop.classic", "FunctionalExtensionality.functional_extensionality_dep",
                       "FloatAxioms.", "PrimFloat.", "PrimInt63.", "Uint63."]
     MAKE_TARGETS = ["theories/Props/C09.vo", "theories/Check/Check_C09.vo"]
     CHECK_REQUIRE = ("From Coq Require Import QArith List Bool.\n"
-                     "From Feems Require Import Base.Num Base.Pchip Model.Nox Check.Check_C09.\nOpen Scope Q_scope.")
+                     "From Feems Require Import Base.Num Base.Pchip Model.Nox Model.Emis Check.Check_C09.\nOpen Scope Q_scope.")
     RULE = ("(constants) tier dictionaries and the 130 rpm bound regenerated from feems.constant, theorem C09_constants re-proved; "
             "(limit) engines and COGAS of every tier at sampled rated speeds incl. 1, 129, 130, 131, 1999, 2000 (thorough: every "
             "integer rpm 1-2000 x 3 tiers): the observed g/kWh is enclosed within 1e-9 of the model's limit by an Interval-checked "
@@ -84,6 +85,18 @@ class P(Prop):
         n = self.n_cases(tier, override)
         for _ in range(n):
             u = rng.random()
+            if u < 0.12:
+                # which characteristic each species ends up with: curves in any order, a species twice, curves without points, a NOx
+                # curve next to a tier method, the method "curve" with and without a NOx curve
+                curves = []
+                for _k in range(rng.randint(0, 5)):
+                    npt = rng.choice([0, 1, 1, 2, 3])
+                    loads = sorted(rng.sample([Fraction(k, 8) for k in range(0, 9)], npt))
+                    curves.append([rng.choice(SPECIES + ["NOX"]), [[l, Fraction(rng.randint(1, 160), 16)] for l in loads]])
+                out.append({"stream": "setup", "tier": rng.choice(TIERS + ["CURVE", "CURVE"]), "speed": rng.choice([100, 720, 1500, rng.randint(1, 2000)]),
+                            "curves": curves, "kind": rng.choice(["engine", "engine", "cogas"]), "rated": 1000,
+                            "loads": sorted(rng.sample([Fraction(k, 16) for k in range(0, 17)], 3))})
+                continue
             if u < 0.25:
                 out.append({"stream": "limit", "tier": rng.choice(TIERS), "speed": rng.choice([rng.randint(1, 2000), rng.randint(1, 16000) / 8]),
                             "kind": rng.choice(["engine", "cogas"])})
@@ -121,7 +134,7 @@ class P(Prop):
         from feems.components_model.component_mechanical import COGAS, Engine
         from feems.types_for_feems import (EmissionCurve, EmissionCurvePoint, EmissionType, NOxCalculationMethod, TypeComponent)
         em = None
-        if case.get("curves"):
+        if case.get("curves") or case["stream"] == "setup":
             em = [EmissionCurve(points_per_kwh=[EmissionCurvePoint(load_ratio=float(l), emission_g_per_kwh=float(v)) for l, v in pts],
                                 emission=EmissionType[sp]) for sp, pts in case["curves"]]
         if case["kind"] == "engine":
@@ -138,8 +151,22 @@ class P(Prop):
     def run(self, case):
         from feems.components_model.utility import IntegrationMethod
         from feems.types_for_feems import EmissionType
-        eng = self.build(case)
         st = case["stream"]
+        if st == "setup":
+            try:
+                eng = self.build(case)
+            except AssertionError:
+                return {"accepted": False}
+            loads = np.array([float(l) for l in case["loads"]])
+            tab = {}
+            for sp in SPECIES:
+                v = eng.emissions_g_per_kwh(EmissionType[sp], loads)
+                tab[sp] = None if v is None else [float(x) for x in np.broadcast_to(np.atleast_1d(np.asarray(v, dtype=float)), loads.shape)]
+            out = {"accepted": True, "table": tab}
+            if case["tier"] != "CURVE":
+                out["gkwh"] = float(eng.emissions_g_per_kwh(EmissionType.NOX, 0.5))
+            return out
+        eng = self.build(case)
         if st == "limit":
             return {"gkwh": float(eng.emissions_g_per_kwh(EmissionType.NOX, 0.5))}
         species = [sp for sp, _ in case["curves"]] + ["NOX"]
@@ -186,6 +213,16 @@ class P(Prop):
 
     def term(self, case, obs):
         st = case["stream"]
+        if st == "setup":
+            cs = core.coq_list([f"({SPECIES.index(sp)}%nat, " + core.coq_list([f"({core.coq_q(l)}, {core.coq_q(v)})" for l, v in pts]) + ")"
+                                for sp, pts in case["curves"]])
+            m = "MCurve" if case["tier"] == "CURVE" else f"(MTier {TIERS.index(case['tier'])}%nat)"
+            rows = []
+            if obs["accepted"]:
+                for sp in SPECIES:
+                    v = obs["table"][sp]
+                    rows.append(f"({SPECIES.index(sp)}%nat, ({core.coq_q_list(case['loads'])}, " + ("None" if v is None else "Some " + core.coq_fl_list(v)) + "))")
+            return f"check_setup {cs} {m} {core.coq_bool(obs['accepted'])} {core.coq_list(rows)}"
         if st == "limit":
             return "true"           # decided by the enclosure lemmas (post_eval)
         if st == "curve":
@@ -209,7 +246,7 @@ class P(Prop):
         """Interval-checked enclosures for the tier limits, with the constants read from the code."""
         import feems.constant as K
         from feems.types_for_feems import NOxCalculationMethod as M
-        idx = [i for i, c in enumerate(cases) if c["stream"] == "limit" and "gkwh" in obs_list[i]]
+        idx = [i for i, c in enumerate(cases) if c["stream"] in ("limit", "setup") and c["tier"] != "CURVE" and "gkwh" in obs_list[i]]
         if not idx:
             return {}
         core.CASES.mkdir(parents=True, exist_ok=True)
@@ -268,6 +305,36 @@ class P(Prop):
     def oracle(self, case, obs):
         """the property with the Regulation 13 constants, on the implementation's numbers"""
         st = case["stream"]
+        if st == "setup":
+            if case["tier"] != "CURVE":
+                if not obs["accepted"]:
+                    return f"an engine with NOx method {case['tier']} was refused"
+                c, a, b = SPEC[case["tier"]]
+                n = float(case["speed"])
+                want = c if n <= 130 else a * n ** b
+                got = obs["table"]["NOX"]
+                if got is None or any(abs(g - want) > 1e-9 * max(1.0, want) for g in got):
+                    return (f"{case['tier']} at {n} rpm ({case['kind']}) with curves for {[sp for sp, _ in case['curves']]}: NOx {got} g/kWh, "
+                            f"Regulation 13 gives {want}")
+            if not obs["accepted"]:
+                return None
+            for sp in SPECIES:
+                if sp == "NOX" and case["tier"] != "CURVE":
+                    continue
+                given = [pts for s_, pts in case["curves"] if s_ == sp and pts]
+                got = obs["table"][sp]
+                if not given:
+                    if got is not None:
+                        return f"species {sp}: no curve with points was given, the engine reports {got}"
+                    continue
+                if got is None:
+                    return f"species {sp}: a curve was given, the engine reports nothing"
+                pts = given[-1]
+                for l, v in pts:
+                    for ql, g in zip(case["loads"], got):
+                        if (len(pts) == 1 or ql == l) and abs(g - float(v)) > 1e-9 * max(1, float(v)):
+                            return f"species {sp}: value at load {float(ql)} is {g}, the (last) given curve says {float(v)}"
+            return None
         if st == "limit":
             c, a, b = SPEC[case["tier"]]
             n = float(case["speed"])
@@ -312,6 +379,16 @@ class P(Prop):
 
     def tags(self, case, obs):
         t = ["stream=" + case["stream"], "kind=" + case["kind"], case["tier"]]
+        if case["stream"] == "setup":
+            sps = [sp for sp, _ in case["curves"]]
+            if len(set(sps)) < len(sps):
+                t.append("species-given-twice")
+            if any(not pts for _, pts in case["curves"]):
+                t.append("curve-without-points")
+            if "NOX" in sps:
+                t.append("nox-curve-given")
+            t.append("accepted" if obs.get("accepted") else "refused")
+            return t
         if case["stream"] == "mass":
             t.append("integration=" + case.get("method", "sum_with_time"))
             t.append("spec=" + case.get("spec", "IMO"))
